@@ -31,6 +31,21 @@ def corpus_cases(prop):
     return out
 
 
+def segmented_twins(rng, gen, frac=0.125):
+    out = []
+    for c in gen:
+        if c.entry != "main" or c.seg or c.extra or len(c.stdin) < 2 or rng.random() >= frac:
+            continue
+        k = len(c.stdin)
+        if k <= 64:
+            seg = F._rand_seg(rng, k)
+        else:
+            seg = [rng.choice([1, 2, 3, 100, 4096, 65535, 65537])] + [rng.choice([5, 4096, 65536, 70000])] * 8
+        tags = {t: v for t, v in c.tags.items() if t in ("nomodel", "expect", "expect_json")}
+        out.append(Case(c.argv, c.stdin, seg=seg, tags=dict(tags, twin=True)))
+    return out
+
+
 def always(c, m):
     return True
 
@@ -145,7 +160,7 @@ PROPS["C09"] = dict(
     absolute=False,
     in_domain=always,
     nontrivial=lambda c, m: c.tags.get("role") == "mirrored" and m[0] == "0",
-    oracle=oracle_same("orig", "mirrored", "rewriting -k as n+1-k changed the output"),
+    oracle=lambda cases, impl, ctx: oracle_all_same("mirrored", "rewriting -k as n+1-k changed the output")(cases, impl, ctx),
     rule="pairs of invocations (modes -f/-c/-b/-l, with -j/-r/--json/-m/--no-join/-z/fallbacks) on inputs whose "
          "records all have n parts, the second with a random subset of the in-range negative indexes rewritten to "
          "n+1-k; each run compared with the model, the pair compared on the implementation; non-trivial = the "
